@@ -13,14 +13,14 @@ func init() {
 
 // one line of reason per exemption; keys are "caller|callee" or "*|callee"
 var errAllExempt = map[string]string{
-	"*|GetFuncNameFromExpr":                                              "its error only says `this expression is not a function call`; callers use it as a predicate",
-	"(*Parser).parseUnaryExpr|(*Parser).incNestLev":                      "depth guard; enforced by the checked calls in the operator loop of parseBinaryExpr",
-	"(*Parser).parsePrimaryExpr|(*Parser).incNestLev":                    "depth guard; enforced by the checked calls in the operator loop of parseBinaryExpr",
-	"(*ExpressionOptimizer).tryOptimizeBinaryOpExecute|Expression.Execute": "constant folding attempt: an evaluation error means `do not fold`, the original node is kept (FOLDERR checks the success edge)",
-	"(*ExpressionOptimizer).tryOptimizeBinaryOpExecute|(*BinaryOpExpr).Execute": "constant folding attempt: an evaluation error means `do not fold`, the original node is kept (FOLDERR checks the success edge)",
+	"*|GetFuncNameFromExpr":                                                      "its error only says `this expression is not a function call`; callers use it as a predicate",
+	"(*Parser).parseUnaryExpr|(*Parser).incNestLev":                              "depth guard; enforced by the checked calls in the operator loop of parseBinaryExpr",
+	"(*Parser).parsePrimaryExpr|(*Parser).incNestLev":                            "depth guard; enforced by the checked calls in the operator loop of parseBinaryExpr",
+	"(*ExpressionOptimizer).tryOptimizeBinaryOpExecute|Expression.Execute":       "constant folding attempt: an evaluation error means `do not fold`, the original node is kept (FOLDERR checks the success edge)",
+	"(*ExpressionOptimizer).tryOptimizeBinaryOpExecute|(*BinaryOpExpr).Execute":  "constant folding attempt: an evaluation error means `do not fold`, the original node is kept (FOLDERR checks the success edge)",
 	"(*ExpressionOptimizer).tryOptimizeFunctionCall|(*FunctionCallExpr).Execute": "constant folding attempt: an evaluation error means `do not fold`, the original node is kept (FOLDERR checks the success edge)",
-	"(*BinaryOpExpr).execStringIn|execStringCompare#2":                   "IN over a function result: an element that cannot be compared counts as `no match` (row mode is more lenient than batch mode, which C03 allows)",
-	"(*BinaryOpExpr).execNumberIn|execNumberCompare#2":                   "IN over a function result: an element that cannot be compared counts as `no match` (row mode is more lenient than batch mode, which C03 allows)",
+	"(*BinaryOpExpr).execStringIn|execStringCompare#2":                           "IN over a function result: an element that cannot be compared counts as `no match` (row mode is more lenient than batch mode, which C03 allows)",
+	"(*BinaryOpExpr).execNumberIn|execNumberCompare#2":                           "IN over a function result: an element that cannot be compared counts as `no match` (row mode is more lenient than batch mode, which C03 allows)",
 }
 
 // neverFails: every return of fn has the constant nil as its error result.
